@@ -1,6 +1,7 @@
 """C15 round 3 — the extended history language (model: coq/model/C15_Ext.v, `run2`).
 
-case = {"kind": "h2-…", "n": <#networks>, "k": <#caller-held side objects>, "views": bool, "ops": [op, ...]}
+case = {"kind": "h2-…", "n": <#networks>, "k": <#caller-held side objects>, "views": bool, "skip": m, "ops": [op, ...]}
+(the first m ops — a fixed preamble — are executed but their observations are not recorded)
 
 old ops (embedded by OBase; a trailing style element selects how the call is written):
   ["add", i, lhs, rhs, rule, eid]                    lhs/rhs = [[label, count], ...]  (tuples)
@@ -12,7 +13,8 @@ new ops:
   ["addany", i, form, form, rule, eid, style]        form = ["map", [[key, count], ...]] | ["iter", [["p", label, count] | ["l", label], ...]]
                                                      | ["side", items] (a fresh RXNSide object); style "kw" | "pos"
   ["addfrom", i, j, e, rule, eid]                    add_rxn(Hj.edges[e].reactants, Hj.edges[e].products, …): the RXNSide OBJECTS
-  ["poolnew", k, items] | ["pooledit", k, x, c] | ["addpool", i, kl, kr, rule, eid]
+  ["poolnew", k, items(, "ctor")] | ["pooledit", k, x, c] | ["poolupdate", k, items] | ["addpool", i, kl, kr, rule, eid]
+  ["mergebad", i]                                    merge(42): TypeError, nothing changes (outside the model: oracle only)
   ["mergeraw", i, [[eid|None, rule, items, items], ...], prefix]
   ["sideset", i, e, lhs?, x, c] | ["sideincr", i, e, lhs?, x, by]      caller edits through H.edges[e]
   ["q", i, name, args...]                            contains x | len | iter(style) | splist | getedge e | nbrs x
@@ -136,7 +138,12 @@ def _query(H, q):
             e = H.get_edge(q[1])
         except KeyError:
             return None, [1]
-        return None, [0, _edge_obs(q[1], e)]
+        ans = [0, _edge_obs(q[1], e)]
+        e2 = e.copy()                       # HyperEdge.copy is deep: edits of the copy stay with the caller
+        e2.reactants.incr("~junk", 3)
+        e2.products.update({"~junk": 1})
+        e2.rule = "~junk"
+        return None, ans
     if name == "nbrs":
         try:
             N = H.neighbors(q[1])
@@ -211,8 +218,19 @@ def apply2(nets, pool, op):
             e = nets[i].add_rxn(src.reactants, src.products, rule=rule, edge_id=eid)
             return None, e.id
         if k == "poolnew":
-            pool[op[1]] = RXNSide.from_any([(it[1], it[2]) if it[0] == "p" else it[1] for it in op[2]])
+            arg = [(it[1], it[2]) if it[0] == "p" else it[1] for it in op[2]]
+            pool[op[1]] = RXNSide(arg) if (len(op) > 3 and op[3] == "ctor") else RXNSide.from_any(arg)
             return None, None
+        if k == "poolupdate":
+            arg = [(it[1], it[2]) if it[0] == "p" else it[1] for it in op[2]]
+            pool[op[1]].update({a: b for a, b in arg} if all(isinstance(a, tuple) for a in arg) and len({a[0] for a in arg}) == len(arg) else arg)
+            return None, None
+        if k == "mergebad":
+            try:
+                nets[op[1]].merge(42)
+            except TypeError:
+                return None, "TypeError"
+            return None, "no-error"
         if k == "pooledit":
             pool[op[1]][op[2]] = op[3]
             return None, None
@@ -291,9 +309,11 @@ def impl2(case):
     nets = [CRNHyperGraph() for _ in range(case["n"])]
     pool = [RXNSide() for _ in range(case.get("k", 0))]
     out = []
-    for op in case["ops"]:
+    skip = case.get("skip", 0)
+    for t, op in enumerate(case["ops"]):
         er, ans = apply2(nets, pool, op)
-        out.append([ERR[er], ans, [net_obs(H, case.get("views", False)) for H in nets], [dict(p.to_dict()) for p in pool]])
+        if t >= skip:
+            out.append([ERR[er], ans, [net_obs(H, case.get("views", False)) for H in nets], [dict(p.to_dict()) for p in pool]])
     return out
 
 
@@ -370,6 +390,8 @@ def op_term(op):
         return "OPoolNew %s %s" % (cnat(op[1]), _items(_raw_items(op[2])))
     if k == "pooledit":
         return "OPoolEdit %s %s %s" % (cnat(op[1]), cstr(op[2]), cZ(op[3]))
+    if k == "poolupdate":
+        return "OPoolUpdate %s %s" % (cnat(op[1]), _items(_raw_items(op[2])))
     if k == "addpool":
         _, i, kl, kr, rule, eid = op
         return "OAddPool %s %s %s %s %s" % (cnat(i), cnat(kl), cnat(kr), cstr(rule or ""), _ostr(eid))
@@ -397,6 +419,8 @@ def in_model_domain(case):
             return all(ok(x) for x in v)
         return True
     for op in case["ops"]:
+        if op[0] == "mergebad":
+            return False
         if op[0] == "molmap" and not all(isinstance(a, str) for a, _ in op[2]):
             return False
         if op[0] in ("mol",) and not isinstance(op[2], str):
@@ -414,8 +438,8 @@ def in_model_domain(case):
 def coq_case2(case):
     if not in_model_domain(case):
         return None
-    return "run2 %s %s %s %s" % (cbool(case.get("views", False)), cnat(case["n"]), cnat(case.get("k", 0)),
-                                clist([op_term(o) for o in case["ops"]]))
+    return "run2 %s %s %s %s %s" % (cbool(case.get("views", False)), cnat(case["n"]), cnat(case.get("k", 0)),
+                                   cnat(case.get("skip", 0)), clist([op_term(o) for o in case["ops"]]))
 
 
 # ------------------------------------------------------------------ property oracle (independent reference)
@@ -687,6 +711,12 @@ def oracle2(case):
                 ref_add(i, t, spec_j[1], spec_j[2], op[4], op[5], er, ans)
         elif k == "poolnew":
             pref[op[1]] = _norm_items(_raw_items(op[2]))
+        elif k == "poolupdate":
+            for a, b in _norm_items(_raw_items(op[2])).items():
+                pref[op[1]][a] = pref[op[1]].get(a, 0) + b
+        elif k == "mergebad":
+            if ans != "TypeError":
+                F("merge-error", "op %d: merge(42) did not raise TypeError" % t)
         elif k == "pooledit":
             if op[3] > 0:
                 pref[op[1]][op[2]] = op[3]
@@ -865,7 +895,9 @@ def mutators():
            ["addany", 1, ["side", [["l", "E"]]], ["map", P(("E", 2.9))], "r", "E", "pos"]]
     ms += [["addfrom", 0, 1, "r_2", "r", None], ["addfrom", 1, 0, "r_1", "zz", None], ["addfrom", 0, 0, "x", "q", "x2"],
            ["addfrom", 0, 1, "nope", "r", None], ["addfrom", 1, 0, "A", None, "r_1"]]
-    ms += [["poolnew", 0, [["p", "A", 2], ["l", "B"]]], ["poolnew", 1, [["l", "C"]]], ["pooledit", 0, "A", 5],
+    ms += [["poolnew", 0, [["p", "A", 2], ["l", "B"], ["p", "A", 1], ["l", ""], ["p", "Z", 0]], "ctor"],
+           ["poolupdate", 0, [["p", "A", 10], ["l", "K"], ["p", "B", -1]]], ["poolupdate", 1, [["p", "C", 2], ["p", "E", 1]]], ["mergebad", 0],
+           ["poolnew", 0, [["p", "A", 2], ["l", "B"]]], ["poolnew", 1, [["l", "C"]]], ["pooledit", 0, "A", 5],
            ["pooledit", 0, "B", 0], ["pooledit", 1, "Zz", 3], ["addpool", 0, 0, 1, "r", None], ["addpool", 1, 0, 0, "p", None],
            ["addpool", 0, 1, 1, "r", "x"]]
     ms += [["rmrxn", 0, e] for e in ("r_1", "x", "A", "q_1", "r_2")] + [["rmrxn", 1, "r_1"], ["rmrxn", 1, "r_2"]]
@@ -937,6 +969,7 @@ def _rand_hist2(rng, maxlen, n):
         elif z < 0.80:
             k = rng.randrange(2)
             ops.append(rng.choice([["poolnew", k, items()], ["pooledit", k, rng.choice(sp), rng.choice([0, 1, 4, 11])],
+                                   ["poolupdate", k, items()],
                                    ["addpool", i, rng.randrange(2), rng.randrange(2), rng.choice(rules), rng.choice([None] + ids)]]))
         else:
             ops.append(rng.choice(queries(i)))
@@ -952,7 +985,7 @@ def big_case():
             ["rmsp", 0, "S50", True], ["rmrxn", 0, "r_100"], ["rmrxn", 0, "r_10"], ["add", 0, P(("S3", 1)), P(("S0", 1)), "r", None],
             ["q", 0, "contains", "r_111"], ["q", 0, "splist"], ["copy", 0, 1], ["merge", 1, 0, True], ["q", 1, "len"],
             ["mol", 1, "S109", 0], ["q", 1, "getmol", "S109"]]
-    return dict(kind="h2-big", n=2, k=0, views=False, ops=ops)
+    return dict(kind="h2-big", n=2, k=0, views=False, skip=108, ops=ops)
 
 
 def gen_cases2(tier, rng):
@@ -961,9 +994,9 @@ def gen_cases2(tier, rng):
     ALL = M + Q0 + queries(1)[:6]
     # (A) surface: every op / option value once after the preamble, observed with and without the derived views
     for o in ALL:
-        cases.append(dict(kind="h2-surface", n=2, k=2, views=True, ops=PRE2 + [o]))
+        cases.append(dict(kind="h2-surface", n=2, k=2, views=True, skip=0 if len(cases) % 10 == 0 else len(PRE2) - 1, ops=PRE2 + [o]))
     for o in ALL[::2]:
-        cases.append(dict(kind="h2-surface", n=2, k=2, views=False, ops=PRE2 + [o]))
+        cases.append(dict(kind="h2-surface", n=2, k=2, views=False, skip=len(PRE2) - 1, ops=PRE2 + [o]))
     # on an empty network (degenerate): every query and the label ops
     for o in Q0 + [m for m in M if m[0] in ("mol", "molmap", "rmsp", "rmrxn", "merge", "copy")][::3]:
         cases.append(dict(kind="h2-empty", n=2, k=2, views=True, ops=[o, ["q", 0, "len"]]))
@@ -971,15 +1004,16 @@ def gen_cases2(tier, rng):
     pairs = [(q, m) for q in Q0 for m in M if m[1] == 0 or m[0] in ("copy", "merge")]
     take = pairs if tier == "thorough" else rng.sample(pairs, 900)
     for q, m in take:
-        cases.append(dict(kind="h2-stale", n=2, k=2, views=False, ops=PRE2 + [q, m, q]))
+        cases.append(dict(kind="h2-stale", n=2, k=2, views=False, skip=len(PRE2), ops=PRE2 + [q, m, q]))
     # (B') edit -> edit -> query / copy then edit the original, query both
     mm = [(a, b) for a in M for b in M]
     for a, b in rng.sample(mm, 600 if tier == "quick" else 6000):
         q = rng.choice(Q0)
-        cases.append(dict(kind="h2-pairs", n=2, k=2, views=rng.random() < 0.5, ops=PRE2 + [a, b, q, ["q", 1, q[2]] + q[3:]]))
+        cases.append(dict(kind="h2-pairs", n=2, k=2, views=rng.random() < 0.5, skip=len(PRE2),
+                          ops=PRE2 + [a, b, q, ["q", 1, q[2]] + q[3:]]))
     for m in M:
         if m[1] == 0 and m[0] not in ("copy",):
-            cases.append(dict(kind="h2-copy", n=3, k=2, views=True,
+            cases.append(dict(kind="h2-copy", n=3, k=2, views=True, skip=len(PRE2),
                               ops=PRE2 + [["copy", 0, 2, rng.choice(["deep", "copy"])], m, ["q", 2, "inc", False, "kw"], ["q", 2, "splist"]]))
     # (C) random histories over the overlapping vocabulary
     for _ in range(500 if tier == "quick" else 5000):
